@@ -19,6 +19,10 @@ pub enum Stack {
     Replace,
     CompactReplace,
     ReplaceCompact,
+    /// the consumer is handed over as `&mut hook`
+    ReplaceRef,
+    CompactReplaceRef,
+    CompactRef,
 }
 
 #[derive(Clone, Debug, Serialize, Deserialize)]
@@ -70,8 +74,29 @@ pub fn run_fed(
     let _guard = SimGuard::new(None, seq.hasher);
     let _ = similar::verif::take_hits();
     let (old, new) = (&seq.old[..], &seq.new[..]);
-    let h = RecHook::<true>::new(fail_at);
+    let mut h = RecHook::<true>::new(fail_at);
     let (h, r) = match stack {
+        Stack::ReplaceRef => {
+            let r = {
+                let mut d = Replace::new(&mut h);
+                guarded(|| feed(&mut d, script))
+            };
+            (h, r)
+        }
+        Stack::CompactReplaceRef => {
+            let r = {
+                let mut d = Compact::new(Replace::new(&mut h), old, new);
+                guarded(|| feed(&mut d, script))
+            };
+            (h, r)
+        }
+        Stack::CompactRef => {
+            let r = {
+                let mut d = Compact::new(&mut h, old, new);
+                guarded(|| feed(&mut d, script))
+            };
+            (h, r)
+        }
         Stack::Compact => {
             let mut d = Compact::new(h, old, new);
             let r = guarded(|| feed(&mut d, script));
@@ -196,8 +221,8 @@ impl C10 {
             );
         }
         match case.stack {
-            Stack::CompactReplace => normal_form(&ops, &seq.new)?,
-            Stack::Replace => carried_exact(&ops, seq)?,
+            Stack::CompactReplace | Stack::CompactReplaceRef => normal_form(&ops, &seq.new)?,
+            Stack::Replace | Stack::ReplaceRef => carried_exact(&ops, seq)?,
             _ => {}
         }
         let rewrote = ok.hits[6..20].iter().any(|&h| h > 0) || ok.hits[27] > 0;
@@ -273,7 +298,7 @@ impl Prop for C10 {
         "exploration"
     }
     fn rule(&self) -> &'static str {
-        "cases drawn from the run seed: short sequence pair over few symbols with repeats (optionally a sub-range), a random monotone alignment (edit-graph walk), its delete and insert streams merged in a PRNG-scheduled order and coalesced into calls of drawn lengths (incl. insert-before-delete, d-i-d-i, split equals), fed through Compact / Replace / Compact<Replace> / Replace<Compact> into a recording consumer that additionally fails at EVERY call index k. Oracle: output is a valid script for the same ranges, deleted and inserted item counts conserved, everything delivered and finished exactly once when finish returns, normal form through Compact<Replace>, exact carried indices through Replace alone; failing consumer => that error comes back and nothing follows. distinct non-trivial = distinct (stack, delivered calls) among executions in which an adapter actually rewrote the script or the consumer error fired"
+        "cases drawn from the run seed: short sequence pair over few symbols with repeats (optionally a sub-range), a random monotone alignment (edit-graph walk), its delete and insert streams merged in a PRNG-scheduled order and coalesced into calls of drawn lengths (incl. insert-before-delete, d-i-d-i, split equals), fed through Compact / Replace / Compact<Replace> / Replace<Compact> (consumer owned or handed over as &mut) into a recording consumer that additionally fails at EVERY call index k. Oracle: output is a valid script for the same ranges, deleted and inserted item counts conserved, everything delivered and finished exactly once when finish returns, normal form through Compact<Replace>, exact carried indices through Replace alone; failing consumer => that error comes back and nothing follows. distinct non-trivial = distinct (stack, delivered calls) among executions in which an adapter actually rewrote the script or the consumer error fired"
     }
     fn fault_names(&self) -> Vec<&'static str> {
         vec![
@@ -320,6 +345,9 @@ impl Prop for C10 {
                 Stack::CompactReplace,
                 Stack::CompactReplace,
                 Stack::ReplaceCompact,
+                Stack::ReplaceRef,
+                Stack::CompactReplaceRef,
+                Stack::CompactRef,
             ]),
             only_k: None,
             cap: if tier == Tier::Quick { 64 } else { 1024 },
